@@ -22,11 +22,4 @@ INVARIANT BlocksPartition
 INVARIANT BlockOrderKept
 INVARIANT NoFlagsNoExchange
 INVARIANT LookupsAgree
-PROPERTY PlacedWhereAsked
-PROPERTY StationaryStay
-PROPERTY RefusalsChangeNothing
-PROPERTY DischargeDestination
-PROPERTY MovesCounted
-PROPERTY QueriesChangeNothing
-PROPERTY LabelsKept
 CHECK_DEADLOCK FALSE
